@@ -186,6 +186,27 @@ func c17Gen(c *core.Ctx) {
 	} {
 		core.Do(c, c17Case{Src: d.src, Aliases: d.al, Plain: d.plain, Kind: "hand-written"}, c17Exec)
 	}
+	// a value that ends in a redirection operator and a blank: the target (file name or
+	// here-document delimiter) is the following word and is examined too, whatever the
+	// operator and wherever the redirection stands
+	for _, op := range []string{"<", ">", ">>", ">|", "<>", "2>", "2>>", "<&", ">&", "<<", "<<-"} {
+		for _, head := range []string{"cat ", "", "x=1 ", "{ ls; } ", "if a; then b; fi ", "a | cat "} {
+			val, tgt, rest := head+op+" ", "T", "\n"
+			if strings.HasPrefix(op, "<<") {
+				tgt, rest = "EOF", "\nbody\nEOF\n"
+			} else if strings.HasSuffix(op, "&") {
+				tgt = "3"
+			}
+			if head == "" || head == "x=1 " {
+				rest = " cmd" + rest
+			}
+			core.Do(c, c17Case{Src: "r t" + rest, Aliases: map[string]string{"r": val, "t": tgt}, Plain: val + tgt + rest, Kind: "redir-blank"}, c17Exec)
+			// through a chain, and with the target itself ending in a blank
+			core.Do(c, c17Case{Src: "o t u" + rest, Aliases: map[string]string{"o": "r ", "r": val, "t": tgt + " ", "u": "U"}, Plain: val + tgt + " U" + rest, Kind: "redir-blank"}, c17Exec)
+			// control: without the blank the target is not examined
+			core.Do(c, c17Case{Src: "r t" + rest, Aliases: map[string]string{"r": strings.TrimRight(val, " "), "t": tgt + "X"}, Plain: strings.TrimRight(val, " ") + " t" + rest, Kind: "redir-blank"}, c17Exec)
+		}
+	}
 	// alias values that hold newlines, whole commands and whole here-documents
 	for _, d := range []struct {
 		src   string
